@@ -33,3 +33,24 @@ Print Assumptions C18_without_signals.
 Theorem C18_no_handler : forall s, Reach s -> sigoff_ok s = true.
 Proof. exact (all_R _ sigoff_R). Qed.
 Print Assumptions C18_no_handler.
+
+(* ---- window size (model half): the renderer adopts exactly the reported size, drops its cache (the next flush
+   repaints), and a WindowSizeMsg is not consumed by the dispatch: it reaches Update like any user message *)
+From Coq Require Import String.
+From BT Require Import Base.Bytes Model.GenTypes Model.VT Model.Renderer Model.EvLoop.
+From BTGen Require Dispatch.
+
+Theorem C18_size_adopted : forall r w h,
+  r_width (r_window_size r w h) = w /\ r_height (r_window_size r w h) = h /\ r_lastRender (r_window_size r w h) = nil.
+Proof. intros r w h. unfold r_window_size, r_repaint. cbn. repeat split. Qed.
+Print Assumptions C18_size_adopted.
+
+Theorem C18_size_reaches_update : forall (M U : Type) dm flt upd view (s : elstate M U) w h,
+  flt = None -> el_exit s = None ->
+  let s' := el_step Dispatch.dispatch dm flt upd view s (RWindowSize w h) in
+  el_update_log s' = (el_update_log s ++ ((el_model s, RWindowSize w h) :: nil))%list /\ el_exit s' = None.
+Proof.
+  intros M U dm flt upd view s w h Hf He. subst flt. unfold el_step. rewrite He. cbn.
+  destruct (upd (el_model s) (RWindowSize w h)) as [m' c]. cbn. split; reflexivity.
+Qed.
+Print Assumptions C18_size_reaches_update.
